@@ -32,7 +32,7 @@ int main(int argc, char **argv) {
   for (long it = 0; it < N; it++) {
     int n = 2 + (int)r.below(7);            // unknowns
     int k = (int)r.below(n);                // constraints, 0..n-1
-    int m = n + (int)r.below(8);            // rows
+    int m = (n - k) + (int)r.below(k + 8);  // rows: at least as many as degrees of freedom (n - k), also fewer than unknowns
     int kind = (int)r.below(2);
     Eigen::MatrixXd A(m, n), B(k, n);
     Eigen::VectorXd b(m);
